@@ -14,7 +14,14 @@ THEOREMS = ["Mistune.iterRender_shape",
             # tight lists: _transform_tight_list never fails on well-shaped tokens, leaves loose lists (and everything nested in them) untouched, and in a tight list
             # turns exactly the paragraphs that are direct children of items into block_text — nothing else changes; idempotent
             "Mistune.transform_eq_spec", "Mistune.transform_total", "Mistune.loose_id", "Mistune.tight_pointwise", "Mistune.tight_no_paragraph", "Mistune.tight_types",
-            "Mistune.tight_counts", "Mistune.tightSpec_idem", "Mistune.transform_idem"]
+            "Mistune.tight_counts", "Mistune.tightSpec_idem", "Mistune.transform_idem",
+            # THE PROPERTY FOR THE CONCRETE MODEL (plugin-free configurations): every token tree Model.parseDoc returns satisfies the executable grammar wfTokens -- nesting bound,
+            # heading levels (from a structural analysis of the regenerated ATX regexes), list attributes, url on links / images (needs the invariant that parse_ref_link stores
+            # string urls), raw xor children, no left-over text, block vs inline contexts -- for EVERY source string; per-handler invariants by induction on both nesting budgets
+            "Mistune.Model.Blk.G.parseMethod_grammar", "Mistune.Model.Blk.G.blockParse_pre", "Mistune.iterRender_wf", "Mistune.Model.Inl.G.inlineParse_wf",
+            "Mistune.Model.parseDoc_wfTokens", "Mistune.Model.coreCfgs_ok", "Mistune.Model.coreCfgs_atx", "Mistune.Model.parseDoc_wf_core", "Mistune.Model.parseDoc_wfTokens_core",
+            # table clause: every accepted row has as many cells as the header has alignments
+            "Mistune.processRow_cells", "Mistune.tableRows_cells", "Mistune.nptableRows_cells"]
 
 
 def cfgs_for(ctx, big=False):
